@@ -53,35 +53,53 @@ def main():
                           "ok": rc_with != 0 and rc_without == 0 and " passed" in o_t and "failed" not in o_t}
         print("confirm:", json.dumps({k: v for k, v in res["confirm"].items() if k != "demo_with_change_tail"}))
     patch = os.path.join(out, "patch.diff")
-    rc, o = sh("git status --porcelain", cwd="/repo")
-    if o.strip():
-        print("refusing: /repo is not clean:\n" + o)
-        sys.exit(2)
-    rc, o = sh(f"git apply {patch}", cwd="/repo")
-    if rc != 0:
-        print("patch does not apply:", o)
-        sys.exit(2)
+    iso = "--isolated" in a
+    env = None
+    if iso:
+        # an isolated copy of /verif run against the scratch worktree (which has the change applied): does not
+        # disturb builds going on in /verif.  The literal procedure (apply to /repo) is the default mode.
+        V2 = f"/tmp/vs/{sid}"
+        shutil.rmtree(V2, ignore_errors=True)
+        os.makedirs("/tmp/vs", exist_ok=True)
+        sh(f"rsync -a --exclude .git --exclude _build/cases --exclude seeded --exclude 'Proofs/C10Proof.*' --exclude 'Proofs/C12Proof.*' --exclude 'Proofs/C13Proof.*' /verif/ {V2}/")
+        env = {"VALIDA_REPO": wt}
+        res["mode"] = "isolated copy of /verif against the scratch worktree"
+        Vrun = V2
+    else:
+        res["mode"] = "patch applied to /repo"
+        Vrun = V
+        rc, o = sh("git status --porcelain", cwd="/repo")
+        if o.strip():
+            print("refusing: /repo is not clean:\n" + o)
+            sys.exit(2)
+        rc, o = sh(f"git apply {patch}", cwd="/repo")
+        if rc != 0:
+            print("patch does not apply:", o)
+            sys.exit(2)
     try:
         t0 = time.time()
-        rc, o = sh("./check --setup", cwd=V, timeout=5400)
+        rc, o = sh("./check --setup", cwd=Vrun, env=env, timeout=5400)
         res["setup"] = {"exit": rc, "seconds": round(time.time() - t0), "tail": o[-1500:]}
         print("setup exit", rc, "in", round(time.time() - t0), "s")
         for c in checks:
             t0 = time.time()
-            rc, o = sh(f"./check {c} --tier {tier}", cwd=V, timeout=7200)
+            rc, o = sh(f"./check {c} --tier {tier}", cwd=Vrun, env=env, timeout=7200)
             lines = [l for l in o.splitlines() if l.startswith("VIOLATION") or l.startswith("KNOWN-FINDING")]
             res["checks"][c] = {"exit": rc, "seconds": round(time.time() - t0), "lines": lines, "tail": o[-2500:]}
             print(c, "exit", rc, "|", "; ".join(lines)[:400])
             # keep the replay of the first violation with the seed
             for l in lines:
                 if l.startswith("VIOLATION") and "replay=" in l:
-                    p = l.split("replay=")[1].split()[0]
+                    p = os.path.join(Vrun, l.split("replay=")[1].split()[0])
                     if os.path.exists(p):
                         shutil.copy(p, os.path.join(out, f"replay_{c}.json"))
                     break
     finally:
-        sh("git checkout -- .", cwd="/repo")
-        sh("git checkout -- evidence", cwd=V)
+        if iso:
+            shutil.rmtree(Vrun, ignore_errors=True)
+        else:
+            sh("git checkout -- .", cwd="/repo")
+            sh("git checkout -- evidence", cwd=V)
     res["caught_by"] = sorted(c for c, r in res["checks"].items() if r["exit"] != 0)
     json.dump(res, open(rp, "w"), indent=1)
     print("caught_by:", res["caught_by"])
